@@ -169,7 +169,7 @@ def main() -> int:
                     i = t if isinstance(t, str) else f"{t}|{t.alias}"
                     rows.append((cfg, n, sraw, alias, i))
     g_opt = lambda x: "None" if x is None else f"(Some {coq_string(x)})"
-    model = coq_eval(HEADER, [f"show_table (table_of {coq_string(cfg)} \"\" {coq_string(n)} {g_opt(sraw)} {g_opt(alias)})"
+    model = coq_eval(HEADER, [f"show_table (table_of {coq_string(cfg)} {coq_string(cfg)} {coq_string(n)} {g_opt(sraw)} {g_opt(alias)})"
                               for cfg, n, sraw, alias, _ in rows], shard=500)
     for (cfg, n, sraw, alias, i), m in zip(rows, model):
         ck.count()
